@@ -11,6 +11,7 @@ import Driver.E2EStream
 import Driver.ConcStream
 import Driver.ParseStream
 import Driver.LeptondStream
+import Driver.NamesStream
 open Driver
 
 def main (args : List String) : IO UInt32 := do
@@ -39,4 +40,6 @@ def main (args : List String) : IO UInt32 := do
   | ["mon", "parse"] => runMon ParseStream.init ParseStream.monStep ParseStream.monFinish; return 0
   | ["model", "leptond"] => runModel LeptondStream.init LeptondStream.step; return 0
   | ["mon", "leptond"] => runMon LeptondStream.init LeptondStream.monStep LeptondStream.monFinish; return 0
+  | ["model", "names"] => runModel NamesStream.init NamesStream.step; return 0
+  | ["mon", "names"] => runMon NamesStream.init NamesStream.monStep NamesStream.monFinish; return 0
   | _ => IO.eprintln "usage: driver model|mon <stream>"; return 2
